@@ -123,6 +123,9 @@ class Gen:
             args = self.mark_passive(self.pick(ar))
             valid = "".join(rng.choice("VVVU") for _ in range(ar))
             return self.add(dict(name=self.name(), kind="c%d" % ar, args=args, valid=valid, op=rng.choice((0, 0, 0, 1, 2)), id=self.nid()))
+        if allow.get("sshot") and r < 0.60 and rng.random() < 0.2:
+            # a node with an active input that asks for one wake-up in start() through the stateless SingleShotScheduler
+            return self.add(dict(name=self.name(), kind="sshot", args=self.pick(1), at=rng.randint(self.start + 1, self.start + 12), id=self.nid()))
         if r < 0.60:
             return self.add(dict(name=self.name(), kind="accum", args=self.pick(1), id=self.nid()))
         if r < 0.63:
